@@ -435,6 +435,38 @@ async fn probe_from(label: &str, addr: SocketAddr, src: Option<SocketAddr>, salt
     p
 }
 
+/// A well-behaved login (handshake to Transfer); `response` is the Login Success, `pong` the final
+/// Transfer or Disconnect.
+async fn probe_login(label: &str, addr: SocketAddr, proxy: bool, salt: u64, patience: Duration) -> Probe {
+    let started = Instant::now();
+    let mut p = Probe { label: label.to_string(), started, connect_error: None, connected: None, response: None, pong: None, clientbound: vec![] };
+    let end = match tokio::time::timeout(patience, TcpEnd::connect(addr, None)).await {
+        Ok(Ok(e)) => e,
+        Ok(Err(e)) => {
+            p.connect_error = Some(e.to_string());
+            return p;
+        }
+        Err(_) => {
+            p.connect_error = Some("connect() did not complete".into());
+            return p;
+        }
+    };
+    p.connected = Some(Instant::now());
+    if proxy {
+        let src: SocketAddr = format!("198.51.100.{}:{}", 1 + salt % 200, 50000 + salt % 10000).parse().expect("addr");
+        end.send(&if salt % 2 == 0 { tcp::proxy_v1(src, addr) } else { tcp::proxy_v2(src, addr) });
+    }
+    let c0 = Instant::now();
+    let claimed = Ident { name: format!("Probe{}", salt % 10_000), uuid: 0x5eed_0000_0000_0000_0000_0000_0000_0000u128 | salt as u128 };
+    let plan = scripts::plan(scripts::login_script(2, "probe.example.org", addr.port(), &claimed, "en_us"), false, [7u8; 16], patience.saturating_sub(started.elapsed()));
+    let log = Client::new(&end, plan).run().await;
+    end.kill();
+    p.response = log.first("LoginSuccess").map(|r| c0 + Duration::from_nanos(r.t_ns));
+    p.pong = log.first("Transfer").or(log.first("ConfDisconnect")).map(|r| c0 + Duration::from_nanos(r.t_ns));
+    p.clientbound = log.names();
+    p
+}
+
 // ---------------------------------------------------------------------------------------------
 // one case
 
@@ -499,6 +531,7 @@ async fn run_case(case: Case) -> CaseOutcome {
         never_discovers: matches!(case.point, Point::ConfigNoKeepAliveEcho),
         ..Default::default()
     };
+    let spec_never_discovers = spec.never_discovers;
     // listeners are started one at a time: two concurrent starts could pick the same free port
     let direct = {
         let _g = START.lock().await;
@@ -563,6 +596,16 @@ async fn run_case(case: Case) -> CaseOutcome {
             tokio::time::sleep_until((placed_at + off).into()).await;
             let patience = (release_at + BOUND).saturating_duration_since(Instant::now());
             probe(&format!("probe-{}", n + 1), addr, proxy, salt, patience).await
+        }));
+    }
+    // a whole login beside the status exchanges, where the deployment routes (stallers that hold a
+    // place in the login or configuration phase must not keep another player from logging in)
+    if !spec_never_discovers && !matches!(case.point, Point::BeforeHeader | Point::InsideHeader { .. } | Point::HeaderDrip { .. }) {
+        let (proxy, salt) = (case.proxy, case.salt.wrapping_add(77));
+        probe_tasks.push(tokio::spawn(async move {
+            tokio::time::sleep_until((placed_at + Duration::from_millis(1_500)).into()).await;
+            let patience = (release_at + BOUND).saturating_duration_since(Instant::now());
+            probe_login("probe-login", addr, proxy, salt, patience).await
         }));
     }
     let late_stallers: Arc<Mutex<Vec<Staller>>> = Arc::new(Mutex::new(vec![]));
@@ -779,13 +822,14 @@ fn judge(report: &mut Report, late: &LateLog, o: &CaseOutcome, latencies: &mut V
         report.violation(
             &format!("probe-delayed/proxy-{}/{}", onoff(o.case.proxy), o.case.point.class(o.case.proxy)),
             &format!(
-                "a well-behaved client's status exchange did not complete within 3 s while {} staller(s) were held at '{}' (PROXY protocol {}, rate limiter {}): {after_release}",
+                "a well-behaved client's {} did not complete within 3 s while {} staller(s) were held at '{}' (PROXY protocol {}, rate limiter {}): {after_release}",
+                if p.label == "probe-login" { "login (handshake to Transfer)" } else { "status exchange" },
                 o.case.k,
                 o.case.point.name(),
                 onoff(o.case.proxy),
                 onoff(o.case.limiter)
             ),
-            json!({"case": o.case, "observed": o.observed(), "expected": "every probe's Status Response and Pong within 3 s of its connect(), whatever the stallers do", "replay": "vp-net --prop C16 --replay <this file>"}),
+            json!({"case": o.case, "observed": o.observed(), "expected": "every probe served (status: Status Response and Pong; login: Login Success and Transfer) within 3 s of its connect(), whatever the stallers do", "replay": "vp-net --prop C16 --replay <this file>"}),
         );
     }
 }
